@@ -346,3 +346,66 @@ Theorem impl_degree_tables :
   mk_tabs C16_RootsTab.refl_maj C16_RootsTab.refl_min C16_RootsTab.refl_lkmaj C16_RootsTab.refl_lkmin = init_tables.
 Proof. exact PV.Proofs.C16_roots_tab.impl_degree_tables_lemma. Qed.
 Print Assumptions impl_degree_tables.
+
+(* ------------------------------------------------------------------------------------------------
+   State carried on the ARGUMENT between calls (Model/C16_Hist.v, Proofs/C16_hist.v): a Score keeps the flat list
+   `parts` (read by score[i], iteration, len, note_array) and the structure it was built from; score[i] = part,
+   unfold_part_maximal/minimal(score), edits of a part in place and "transpose the result again" change `parts`
+   only.  transpose(score, iv) as a state machine over such histories. *)
+From PV Require Proofs.C16_hist.
+From PV Require Import Model.C16_Hist.
+
+(* for EVERY history: the state reached is (the list operations applied to the initial part list, the structure
+   given at construction) *)
+Theorem score_state_after_history : forall partlist ops s,
+  sh_run ops (sh_init partlist) = Some s <->
+  (sh_lrun ops partlist = Some (sh_parts s) /\ sh_structure s = partlist).
+Proof. intros. apply (PV.Proofs.C16_hist.sh_state_lemma ops (sh_init partlist) s). Qed.
+Print Assumptions score_state_after_history.
+
+(* forall history, observation = f (current state): what the public views of transpose(score, iv) show after any
+   history of score[i] = part / edits in place / unfolding / earlier transpositions (kept or adopted) is the
+   transposition of the CURRENT part list, part by part *)
+Theorem score_history_reads_current : forall n q up partlist ops,
+  opt_bind (sh_run ops (sh_init partlist)) (sh_view n q up) =
+  opt_bind (sh_lrun ops partlist) (sh_map_opt (transpose_elems n q up)).
+Proof. exact PV.Proofs.C16_hist.sh_history_lemma. Qed.
+Print Assumptions score_history_reads_current.
+
+(* the structure a score was built from never matters *)
+Theorem score_structure_irrelevant : forall n q up s s',
+  sh_parts s = sh_parts s' -> sh_view n q up s = sh_view n q up s'.
+Proof. exact PV.Proofs.C16_hist.sh_structure_irrelevant_lemma. Qed.
+Print Assumptions score_structure_irrelevant.
+
+(* every element of every current part appears in the result, pitched ones moved by tr_note, the others untouched *)
+Theorem score_transpose_moves_current_parts : forall n q up s v,
+  sh_view n q up s = Some v -> Forall2 (fun p p' => Forall2 (moved n q up) p p') (sh_parts s) v.
+Proof. exact PV.Proofs.C16_hist.sh_view_moves_lemma. Qed.
+Print Assumptions score_transpose_moves_current_parts.
+
+(* an observed transposition leaves the argument's state alone (so the same argument can be transposed again, by
+   another interval, with the answer of a first call) *)
+Theorem score_transpose_keeps_argument : forall n q up s, sh_step s (ShTr n q up) = Some s.
+Proof. exact PV.Proofs.C16_hist.sh_tr_keeps_lemma. Qed.
+Print Assumptions score_transpose_keeps_argument.
+
+(* non-vacuity: a score built from [C4]; score[0] = [G4, rest]; transposed up a major third shows [B4, rest]; that
+   result transposed down a minor second shows [A#4, rest] *)
+Example score_history_example :
+  opt_bind (sh_run [ShSet 0 [(2, Some (4, 0, 4)); (3, None)]] (sh_init [[(1, Some (0, 0, 4))]])) (sh_view 3 3 true)
+    = Some [[(2, Some (6, 0, 4)); (3, None)]] /\
+  opt_bind (sh_run [ShSet 0 [(2, Some (4, 0, 4)); (3, None)]; ShAdopt 3 3 true] (sh_init [[(1, Some (0, 0, 4))]]))
+           (sh_view 2 2 false)
+    = Some [[(2, Some (5, 1, 4)); (3, None)]].
+Proof. split; vm_compute; reflexivity. Qed.
+
+(* a variant that walks the structure the score was built from answers E4 (the major third above the C4 the score
+   no longer holds) for the same history: the statement above is not vacuous *)
+Example score_history_stale_refuted :
+  opt_bind (sh_run [ShSet 0 [(2, Some (4, 0, 4)); (3, None)]] (sh_init [[(1, Some (0, 0, 4))]])) (sh_view_stale 3 3 true)
+    = Some [[(1, Some (2, 0, 4))]] /\
+  opt_bind (sh_run [ShSet 0 [(2, Some (4, 0, 4)); (3, None)]] (sh_init [[(1, Some (0, 0, 4))]])) (sh_view_stale 3 3 true)
+    <> opt_bind (sh_lrun [ShSet 0 [(2, Some (4, 0, 4)); (3, None)]] [[(1, Some (0, 0, 4))]])
+                (sh_map_opt (transpose_elems 3 3 true)).
+Proof. split; [vm_compute; reflexivity | vm_compute; discriminate]. Qed.
